@@ -210,9 +210,119 @@ def run(ctx):
                             exp = "none" if ram else f"some {(b - first) * mask + (a & 0xFFFF) - (0x10000 - mask)}"
                             if g != exp:
                                 s3.violate({"map": desc, "addr": hex(a)}, exp, g, "user .map: offset formula / RAM / mirror law broken")
+            # RAM advance adds n (whatever the declared bank size of the RAM mapping)
+            for i, a in enumerate(addrs):
+                for _, lo, hi, mask, ram, m in dirs:
+                    for (first, last) in [(lo, hi)] + ([m] if m else []):
+                        if ram and first <= (a >> 16) <= last:
+                            for j, n in enumerate((0, 1, 0x8000, 0x12345)):
+                                ga = impl_ans[len(addrs) + i * 4 + j]
+                                if first <= ((a + n) >> 16) <= last and ga != f"ok {a + n}":
+                                    s3.violate({"map": desc, "addr": hex(a), "n": n}, f"ok {a + n}", ga, "advancing a RAM address of a user mapping does not add n")
         if ci < 2:
             s3.sample({"config": desc, "op": ops[0], "model": model[0]})
     streams.append(s3)
+
+    # ---------------- S1d: map / unmap sequences on an editable bus ------------------------------------
+    s6 = core.Stream("S1-map-unmap", "sequences of Bus.map and Bus.unmap on an editable bus (overlapping bank ranges where a later mapping owns the overlap, mirrors, RAM over ROM as in the built-in HiROM bus; unmap of the earlier / later / a missing mapping) vs model; oracle: a bank whose most recent covering directive is still mapped follows that mapping (ROM: declared-range formula, mirror = primary, RAM: no offset, +n), a bank covered by no remaining mapping is rejected; non-trivial = distinct sequences")
+    for ci in range(40 if tier == "quick" else 500):
+        seq = []      # ("map", ident, lo, hi, mask, ram, mirror) | ("unmap", ident)
+        live = {}
+        for di in range(rng.randrange(2, 5)):
+            ident = str(di + 1)
+            if seq and rng.random() < 0.5:
+                # overlap the previous mapping's upper banks (RAM 7E-7F on top of ROM 40-7F)
+                plo, phi = seq[-1][2], seq[-1][3]
+                lo = rng.randrange(plo, phi + 1)
+                hi = min(0xFF, max(lo, phi + rng.randrange(-2, 3)))
+            else:
+                lo = rng.randrange(0, 0xF0)
+                hi = min(0xFF, lo + rng.randrange(0, 0x40))
+            mask = rng.choice([0x8000, 0x10000])
+            ram = rng.random() < 0.35
+            mirror = None
+            if rng.random() < 0.3:
+                mlo = rng.randrange(0, 0xF0)
+                mirror = (mlo, min(0xFF, mlo + (hi - lo)))
+            seq.append(("map", ident, lo, hi, mask, ram, mirror))
+        maps = list(seq)
+        for _ in range(rng.randrange(1, 3)):
+            victim = rng.choice([m[1] for m in maps] + ["9"])
+            seq.insert(rng.randrange(1, len(seq) + 1), ("unmap", victim))
+        desc = "user:" + ";".join((f"u,{d[1]}" if d[0] == "unmap" else f"{d[1]},{d[2]},{d[3]},{d[4]},{1 if d[5] else 0},{d[6][0] if d[6] else '-'},{d[6][1] if d[6] else '-'}") for d in seq)
+        try:
+            bus = impl.user_bus([("unmap", d[1]) if d[0] == "unmap" else d[1:] for d in seq])
+        except Exception as e:  # noqa: BLE001
+            s6.disagree({"sequence": desc}, "a bus", f"{type(e).__name__}: {e}", "building the bus raised")
+            continue
+        # Spec: owner of each bank = the most recent directive covering it; alive unless unmapped afterwards
+        owner = {}
+        for k, d in enumerate(seq):
+            if d[0] == "map":
+                _, ident, lo, hi, mask, ram, mirror = d
+                for b in range(lo, hi + 1):
+                    owner[b] = (k, lo, mask, ram)
+                if mirror:
+                    for b in range(mirror[0], mirror[1] + 1):
+                        owner[b] = (k, mirror[0], mask, ram)
+        dead = set()
+        covered_alive = set()
+        for k, d in enumerate(seq):
+            if d[0] == "unmap":
+                for k2, d2 in enumerate(seq[:k]):
+                    if d2[0] == "map" and d2[1] == d[1]:
+                        dead.add(k2)
+        for k, d in enumerate(seq):
+            if d[0] == "map" and k not in dead:
+                covered_alive.update(range(d[2], d[3] + 1))
+                if d[6]:
+                    covered_alive.update(range(d[6][0], d[6][1] + 1))
+        banks = set()
+        for d in seq:
+            if d[0] == "map":
+                banks.update({d[2], d[3], (d[2] + d[3]) // 2, min(0xFF, d[3] + 1), max(0, d[2] - 1)})
+                if d[6]:
+                    banks.update(d[6])
+        addrs = [(b << 16) + o for b in sorted(banks) for o in (0, 0x7FFF, 0x8000, 0xFFFF, rng.randrange(0x10000))]
+        incs = (0, 1, 0x123)
+        ops = [f"phys {desc} {a}" for a in addrs] + [f"add {desc} {a} {n}" for a in addrs for n in incs]
+        model = drv.ask(ops)
+        impl_ans = []
+        for a in addrs:
+            c = impl.phys_code(bus, a)
+            impl_ans.append("err" if c == 0 else "none" if c == 1 else f"some {(c - 4) // 2}" if c % 2 == 0 else f"some -{(c - 5) // 2}")
+        for a in addrs:
+            for n in incs:
+                c = impl.add_code(bus, a, n)
+                impl_ans.append("err" if c == 0 else f"ok {c - 1}")
+        s6.nontrivial.add(desc)
+        for op, m_, g in zip(ops, model, impl_ans):
+            s6.cases += 1
+            if m_ != g:
+                s6.disagree({"op": op}, m_, g)
+        for i, a in enumerate(addrs):
+            b = a >> 16
+            g = impl_ans[i]
+            o = owner.get(b)
+            if o is not None and o[0] not in dead:
+                _, first, mask, ram = o
+                if (a & 0xFFFF) >= 0x10000 - mask:
+                    exp = "none" if ram else f"some {(b - first) * mask + (a & 0xFFFF) - (0x10000 - mask)}"
+                    s6.count("oracle:live-bank")
+                    if g != exp:
+                        s6.violate({"sequence": desc, "addr": hex(a)}, exp, g, "a bank whose mapping is still in place does not translate by that mapping after an unmap of another one")
+                    if ram:
+                        for j, n in enumerate(incs):
+                            ga = impl_ans[len(addrs) + i * len(incs) + j]
+                            if (a + n) >> 16 == b and ga != f"ok {a + n}":
+                                s6.violate({"sequence": desc, "addr": hex(a), "n": n}, f"ok {a + n}", ga, "advancing a RAM address does not add n")
+            elif b not in covered_alive:
+                s6.count("oracle:unmapped-bank")
+                if g != "err":
+                    s6.violate({"sequence": desc, "addr": hex(a)}, "rejected", g, "a bank that no remaining mapping covers is not rejected")
+        if ci < 2:
+            s6.sample({"sequence": desc})
+    streams.append(s6)
 
     # ---------------- the mapping a program gets does not depend on what was assembled before ----------
     import pipeline
